@@ -106,6 +106,10 @@ def rand_object(rng, depth, nkeys=None):
 
 def key_variant(rng, k):
     """the same integer key passed to the scope as int64_t (`i`), int32_t (`j`) or uint64_t (`u`)"""
+    if k[0] == "s":
+        # string keys: sometimes passed in a fixed-size char buffer (C string) instead of a std::string
+        b = bytes.fromhex(k[1:]) if k[1:] != "-" else b""
+        return ("c" + k[1:]) if (0 < len(b) < 20 and 0 not in b and rng.random() < 0.25) else k
     if k[0] != "i":
         return k
     v = int(k[1:])
